@@ -277,3 +277,13 @@ def r4(ctx):
         direct = [c for c in m.calls() if not c.cleanup and any(e2.operand(a) == ('param', 1, 'values') for a in c.args)]
         bad = [c for c in direct if not c.matches('core::slice::len', 'alloc::slice::to_vec')]
         ctx.check(not bad, 'R4', 'median:consumers', m, 'median reads its input only through len and a copy that is sorted', 'median uses its input positionally: %s' % [c.short for c in bad])
+
+
+# plumbing between the interface and the analysed functions (rules/plumbing.py)
+_run_before_plumbing = run
+
+
+def run(ctx):
+    _run_before_plumbing(ctx)
+    from rules import plumbing
+    plumbing.tick_order(ctx, 'R3')
